@@ -810,6 +810,168 @@ Proof.
   intros U0 Hc H. unfold ptoks. rewrite (norm_canonical e Hc). apply (C05_core d); assumption.
 Qed.
 
+
+(** * Parser outputs satisfy [shape] and [esc_safe] (half of [img_closed]) *)
+Section ShapeClosed.
+  Variable d : dialect.
+
+  Definition SInv (t : expr) (rest : list tok) : Prop := shape d t /\ esc_safe t rest.
+  Definition rec_sh (rec : N -> list tok -> res (expr * list tok)) : Prop :=
+    forall p ts t rest, rec p ts = Ok (t, rest) -> SInv t rest.
+
+  Ltac brk H :=
+    match type of H with
+    | context [if ?x then _ else _] => destruct x eqn:?; try discriminate H
+    | context [match ?x with _ => _ end] => destruct x eqn:?; try discriminate H
+    | context [bind (?rec ?p ?ts) _] =>
+        let E := fresh "E" in
+        destruct (rec p ts) as [[? ?]| | |] eqn:E; cbn [bind] in H; try discriminate H
+    end.
+
+  Variable rec : N -> list tok -> res (expr * list tok).
+  Hypothesis Hrec : rec_sh rec.
+
+  Ltac use_rec :=
+    repeat match goal with
+    | E : rec _ _ = Ok (_, _) |- _ => apply Hrec in E; destruct E as (? & ?)
+    end.
+
+  Lemma parse_list_sh g : forall ts l rest,
+    parse_list d rec g ts = Ok (l, rest) -> Forall (shape d) l.
+  Proof.
+    induction g as [|g IH]; intros ts l rest H; cbn [parse_list] in H; [discriminate|].
+    destruct (rec (lvl d K_UNKNOWN) ts) as [[e r]| | |] eqn:E; cbn [bind] in H; try discriminate.
+    apply Hrec in E. destruct E as [Es _].
+    destruct r as [|t0 r']; [inversion H; subst; repeat constructor; auto|].
+    destruct t0; try (inversion H; subst; repeat constructor; auto; fail).
+    destruct (parse_list d rec g r') as [[l' r'']| | |] eqn:E2; cbn [bind] in H; try discriminate.
+    inversion H; subst. constructor; [auto|]. eapply IH; eauto.
+  Qed.
+
+  Lemma parse_list_len g : forall ts l rest,
+    parse_list d rec g ts = Ok (l, rest) -> (1 <= length l)%nat.
+  Proof.
+    intros ts l rest H. apply parse_list_nonempty in H. destruct l; [congruence|cbn; lia].
+  Qed.
+
+  Ltac sh_goal :=
+    unfold SInv, esc_safe; cbn [shape node_ok ropen_like is_escape_head];
+    repeat match goal with
+    | Hx : ?b = true |- context [?b] => rewrite Hx
+    | Hx : ?b = false |- context [?b] => rewrite Hx
+    end; cbn [orb andb negb];
+    repeat split; auto; try discriminate; try tauto.
+
+  Lemma parse_prefix_sh ts t rest : parse_prefix d rec ts = Ok (t, rest) -> SInv t rest.
+  Proof.
+    intro H. unfold parse_prefix, expect_rparen in H.
+    destruct ts as [|t0 r]; [discriminate|]. destruct t0; try discriminate.
+    - assert (HH : (EAtom s n, r) = (t, rest)) by (repeat brk H; congruence).
+      inversion HH; subst. sh_goal.
+    - repeat brk H; inversion H; subst; use_rec; sh_goal.
+      apply andb_true_iff in Heqb0. tauto.
+    - repeat brk H; inversion H; subst; use_rec; sh_goal. apply orb_true_r.
+    - destruct k; try discriminate. repeat brk H; inversion H; subst; use_rec; sh_goal.
+    - destruct (lambda d && lambda_ahead r); [discriminate|].
+      destruct (parse_list d rec (S (length r)) r) as [[l r1]| | |] eqn:E; cbn [bind] in H; try discriminate.
+      pose proof (parse_list_sh _ _ _ _ E) as Hs. pose proof (parse_list_len _ _ _ _ E) as Hl.
+      destruct r1 as [|t1 r2]; [discriminate|]. destruct t1; try discriminate.
+      destruct l as [|x [|y l']]; [cbn in Hl; lia| |]; inversion H; subst.
+      + inversion Hs; subst. sh_goal.
+      + unfold SInv, esc_safe. cbn [shape node_ok ropen_like]. rewrite shape_all. split; [|intro; discriminate]. split; [reflexivity|]. inversion Hs as [|? ? Hx Hr]; subst. inversion Hr; subst. auto.
+  Qed.
+
+  Lemma parse_like_sh kd e neg allow r t rest :
+    shape d e -> (kd = LLike \/ kd = LILike \/ (kd = LSimilar /\ allow = false)) ->
+    parse_like d rec kd e neg allow r = Ok (t, rest) -> SInv t rest.
+  Proof.
+    intros Se Hk H. unfold parse_like in H.
+    assert (Hs : exists any r1,
+      (match r with
+       | TKw KAny :: r' => if allow then (true, r') else (false, r)
+       | _ => (false, r)
+       end) = (any, r1) /\ (any = true -> allow = true)).
+    { destruct r as [|t0 r']; [exists false; eexists; split; [reflexivity|discriminate]|].
+      destruct t0; try (exists false; eexists; split; [reflexivity|discriminate]).
+      destruct k; try (exists false; eexists; split; [reflexivity|discriminate]).
+      destruct allow; [exists true|exists false]; eexists; (split; [reflexivity|auto]). }
+    destruct Hs as (any & r1 & Hs & Ha). rewrite Hs in H.
+    destruct (rec (lvl d C_Like) r1) as [[pat r2]| | |] eqn:E; cbn [bind] in H; try discriminate.
+    apply Hrec in E. destruct E as [Sp Ep].
+    assert (Hany : negb any || match kd with LLike | LILike => true | _ => false end = true).
+    { destruct any; [|reflexivity]. specialize (Ha eq_refl). destruct Hk as [?|[?|[? ?]]]; subst; try reflexivity. discriminate. }
+    assert (Hkd : match kd with LLike | LILike | LSimilar => true | _ => false end = true).
+    { destruct Hk as [?|[?|[? ?]]]; subst; reflexivity. }
+    repeat brk H; inversion H; subst; unfold SInv, esc_safe; cbn [shape node_ok ropen_like is_escape_head].
+    all: rewrite ?Hany, ?Hkd; cbn [andb].
+    all: repeat split; auto; try (intro; discriminate).
+    all: try (destruct kd; try discriminate Hkd; reflexivity).
+    all: try (destruct (ropen_like pat) eqn:R; [apply Ep in R; cbn in R; discriminate R|reflexivity]).
+    all: try (intro Hx; destruct kd; discriminate Hx).
+  Qed.
+
+  Lemma parse_in_sh e neg r t rest :
+    shape d e -> parse_in d rec e neg r = Ok (t, rest) -> SInv t rest.
+  Proof.
+    intros Se H. unfold parse_in, expect_rparen in H.
+    destruct r as [|t0 r1]; [discriminate|]. destruct t0; try discriminate.
+    - destruct k; try discriminate. repeat brk H; inversion H; subst; use_rec; sh_goal.
+    - assert (Hgen : forall r1, bind (parse_list d rec (S (length r1)) r1)
+               (fun '(l, r2) => match r2 with TRParen :: r' => Ok (EInList neg e l, r') | _ => Err end) = Ok (t, rest) ->
+             SInv t rest).
+      { intros r0 H0. destruct (parse_list d rec (S (length r0)) r0) as [[l r3]| | |] eqn:E; cbn [bind] in H0; try discriminate.
+        pose proof (parse_list_sh _ _ _ _ E) as Hs. pose proof (parse_list_len _ _ _ _ E) as Hl.
+        destruct r3 as [|t3 r4]; [discriminate|]. destruct t3; try discriminate. inversion H0; subst.
+        unfold SInv, esc_safe. cbn [shape node_ok ropen_like]. rewrite shape_all.
+        split; [|intro; discriminate]. split; [destruct l; [cbn in Hl; lia|reflexivity]|]. auto. }
+      destruct r1 as [|t1 r2]; [apply Hgen in H; exact H|].
+      destruct t1; try (apply Hgen in H; exact H).
+      destruct (in_empty_list d) eqn:Ei; [|discriminate]. inversion H; subst.
+      unfold SInv, esc_safe; cbn [shape node_ok ropen_like]. rewrite Ei. repeat split; auto. intro; discriminate.
+  Qed.
+
+  Lemma parse_infix_sh e q ts t rest :
+    shape d e -> parse_infix d rec e q ts = Ok (t, rest) -> SInv t rest.
+  Proof.
+    intros Se H. unfold parse_infix, expect_rparen in H.
+    destruct ts as [|t0 r]; [discriminate|]. destruct t0; try discriminate.
+    - repeat brk H; inversion H; subst; use_rec; sh_goal.
+    - destruct k; try discriminate; unfold parse_not_family in H; cbn beta iota in H; repeat brk H;
+      first [ eapply parse_in_sh; eassumption
+            | eapply parse_like_sh; [eassumption| |eassumption]; tauto
+            | inversion H; subst; use_rec; sh_goal ].
+    - repeat brk H; inversion H; subst; use_rec; sh_goal.
+    - repeat brk H; inversion H; subst; use_rec; sh_goal.
+    - repeat brk H; inversion H; subst; use_rec; sh_goal.
+  Qed.
+
+  Lemma loop_sh g : forall p e ts t rest,
+    shape d e -> esc_safe e ts -> loop d rec g p e ts = Ok (t, rest) -> SInv t rest.
+  Proof.
+    induction g as [|g IH]; intros p e ts t rest Se Ee H; cbn [loop] in H; [discriminate|].
+    destruct (np d ts <=? p).
+    - inversion H; subst. split; assumption.
+    - destruct (parse_infix d rec e (np d ts) ts) as [[e' ts']| | |] eqn:E; cbn [bind] in H; try discriminate.
+      apply parse_infix_sh in E; auto. destruct E as [S' E']. eapply IH; eauto.
+  Qed.
+End ShapeClosed.
+
+Lemma parse_sub_sh d fuel : rec_sh d (parse_sub d fuel).
+Proof.
+  induction fuel as [|f IH]; intros p ts t rest H; cbn [parse_sub] in H; [discriminate|].
+  destruct (parse_prefix d (parse_sub d f) ts) as [[e r]| | |] eqn:E; cbn [bind] in H; try discriminate.
+  apply (parse_prefix_sh d (parse_sub d f) IH) in E. destruct E as [Se Ee].
+  eapply (loop_sh d (parse_sub d f) IH); eauto.
+Qed.
+
+(** every tree the model parser returns is one the dialect can produce ([shape]) and no open LIKE on
+    its right spine is followed by an ESCAPE clause: two of the hypotheses of [token_roundtrip] *)
+Theorem parse_expr_shape d ts t rest :
+  parse_expr d ts = Ok (t, rest) -> shape d t /\ esc_safe t rest.
+Proof.
+  unfold parse_expr. destruct (existsb is_other ts); [discriminate|]. apply parse_sub_sh.
+Qed.
+
 (** evaluation of one case including the image predicate: bit 32 = the implementation's tree,
     together with the unconsumed tokens, does not satisfy [imgb] although the token list passes the
     syntactic fragment test; bit 64 = the token list fails the (conservative, purely syntactic)
